@@ -31,7 +31,7 @@ CONSTANTS
 VARIABLES
     blocks,         \* [0..NBlocks-1 -> SUBSET (0..BlockBits-1)]
     set,            \* ghost: the set of ports the calls so far mean
-    ivs,            \* ghost: the same as a set of intervals <<from, to>>
+    ivs,            \* ghost: the same as a set of intervals <<from, to>> (maintained when ~Concrete)
     nops,
     act
 
@@ -216,14 +216,14 @@ Step == \/ MaxOps = 0 /\ nops' = nops
 Add(p) ==
     /\ Step
     /\ IF Concrete THEN blocks' = AddBit(blocks, p) /\ set' = set \cup {p} ELSE UNCHANGED <<blocks, set>>
-    /\ ivs' = ivs \cup {<<p, p>>}
+    /\ ivs' = IF Concrete THEN ivs ELSE ivs \cup {<<p, p>>}
     /\ act' = [n |-> "Add", p |-> p]
 
 \* PortSet.AddRange(from, to)  (from = 0 or from >= to panic: not offered)
 AddRange(f, t) ==
     /\ Step
     /\ IF Concrete THEN blocks' = AddRangeTo(blocks, f, t + 1) /\ set' = set \cup (f..t) ELSE UNCHANGED <<blocks, set>>
-    /\ ivs' = ivs \cup {<<f, t>>}
+    /\ ivs' = IF Concrete THEN ivs ELSE ivs \cup {<<f, t>>}
     /\ act' = [n |-> "AddRange", from |-> f, to |-> t]
 
 \* PortSet.Parse(string)
@@ -235,7 +235,7 @@ Parse(str) ==
               /\ act' = [n |-> "Parse", s |-> str, err |-> r.err]
          ELSE /\ UNCHANGED <<blocks, set>>
               /\ act' = [n |-> "Parse", s |-> str, err |-> ~StringOK(str)]
-    /\ ivs' = ivs \cup IvsOf(str)
+    /\ ivs' = IF Concrete THEN ivs ELSE ivs \cup IvsOf(str)
 
 Next ==
     \/ \E p \in AddPorts : Add(p)
@@ -266,7 +266,10 @@ RangesSorted == LET r == RangeSet(blocks) IN
 ParseIsMeaning ==
     [][act'.n = "Parse" => act'.err = ~StringOK(act'.s)]_vars
 \* the interval computation used for the full-range tables is the run computation
-IvRunsAreRuns == /\ act.n = "Init" => \A s \in Strings : IvRuns(IvsOf(s)) = Runs(StringSet(s))
-                 /\ Concrete => IvRuns(ivs) = Runs(set)
-Monotone == [][set \subseteq set' /\ Members(blocks) \subseteq Members(blocks')]_vars
+IvRunsAreRuns ==
+    act.n = "Init" /\ Concrete =>      \* a statement about IvRuns alone: evaluated once
+        LET All == {<<p, p>> : p \in AddPorts} \cup AddRanges IN
+        /\ \A s \in Strings : IvRuns(IvsOf(s)) = Runs(StringSet(s))
+        /\ \A i1 \in All, i2 \in All, i3 \in {i \in All : i[2] - i[1] <= 1} :
+               IvRuns({i1, i2, i3}) = Runs((i1[1]..i1[2]) \cup (i2[1]..i2[2]) \cup (i3[1]..i3[2]))
 =============================================================================
